@@ -88,10 +88,10 @@ def _mixer(state, k):
     return U @ state
 
 
-def _mixer_ops(k):
+def _mixer_ops(k, g=None):
     import pennylane as qp
 
-    g = GEN
+    g = GEN if g is None else g
     qp.Rot(g[(3 * k) % 12], g[(3 * k + 1) % 12], g[(3 * k + 2) % 12], wires=0)
     qp.Rot(g[(3 * k + 5) % 12], g[(3 * k + 7) % 12], g[(3 * k + 9) % 12], wires=1)
     qp.CNOT(wires=[0, 1])
@@ -226,13 +226,16 @@ def check_qs(spec):
     dev = qp.device("default.qubit", wires=2)
     nl = spec.get("nonlinear")
 
+    const = spec.get("mix") == "const"   # mixing layers with Python-float parameters instead of a trainable QNode argument
+
     @qp.qnode(dev)
-    def circuit(x, y, z):
-        _mixer_ops(0)
+    def circuit(x, y, z, w):
+        g = None if const else w
+        _mixer_ops(0, g)
         for k, (name, wires, exprs) in enumerate(gates):
-            pars = [_expr(e, x, y, z) for e in exprs]
+            pars = [_expr(e, x, y, z) if any(e[:4]) else (e[4] if const else e[4] * w[0] / GEN[0]) for e in exprs]
             getattr(qp, name)(*pars, wires=wires)
-            _mixer_ops(k + 1)
+            _mixer_ops(k + 1, g)
         if nl == "x*y":
             qp.RX(x * y, wires=0)
         elif nl == "x**2":
@@ -242,7 +245,8 @@ def check_qs(spec):
         return qp.expval(qp.Z(0) @ qp.X(1))
 
     x0, y0, z0 = pnp.array(VALS["x"], requires_grad=True), pnp.array(VALS["y"], requires_grad=True), pnp.array(VALS["z"], requires_grad=True)
-    kw = {}
+    w0 = pnp.array(GEN, requires_grad=True)
+    kw = {"argnum": [0, 1, 2]}
     if spec.get("sel") == "argnum":
         kw = {"argnum": [0, 2]}
     elif spec.get("sel") == "names":
@@ -250,7 +254,7 @@ def check_qs(spec):
     elif spec.get("sel") == "index":
         kw = {"encoding_args": {"z": [(1,)], "x": ...}}
     try:
-        res = qp.fourier.qnode_spectrum(circuit, **kw)(x0, y0, z0)
+        res = qp.fourier.qnode_spectrum(circuit, **kw)(x0, y0, z0, w0)
     except ValueError as e:
         if nl and "linear" in str(e):
             return ok(outcome="nonlinear-rejected", nontrivial=True)
@@ -273,7 +277,7 @@ def check_qs(spec):
     def ref(x, y, z):
         return _ref_value([(n, w, [_expr(e, x, y, z) for e in exprs]) for n, w, exprs in gates])
 
-    val = float(circuit(x0, y0, z0))
+    val = float(circuit(x0, y0, z0, w0))
     if abs(val - ref(xv, yv, zv)) > 1e-9:
         return bad("qs:reference-disagrees-with-qnode", val, ref(xv, yv, zv))
     out = {}
@@ -292,7 +296,8 @@ def check_qs(spec):
             actual, _ = _dft_support(fun)
             missing = _contained(actual, rep)
             if missing:
-                return bad(f"qs:frequency-missing:{arg}{list(idx)}", {"reported": rep, "actual": actual, "missing": missing},
+                sig = "qs:frequency-missing:constant-gate-parameters-present" if const else f"qs:frequency-missing:{arg}{list(idx)}"
+                return bad(sig, {"reported": rep, "actual": actual, "missing": missing, "arg": arg, "idx": list(idx)},
                            "actual subset of reported")
             out[f"{arg}{list(idx)}"] = [actual, len(rep)]
     return ok(outcome=out, nontrivial=any(len(v[0]) > 1 for v in out.values()))
@@ -557,6 +562,8 @@ def run(ctx):
         ctx.enumerate(specs, fn="check_cs", axis="circuit_spectrum", chunk=4)
     if only in (None, "qs"):
         specs = [{"k": "qs", "w": w} for w in words(sorted(QS_ALPHA), n, 1)]
+        specs += [{"k": "qs", "w": w, "mix": "const"} for w in list(words(sorted(QS_ALPHA), 1, 1)) + [["CRX(x)", l] for l in sorted(QS_ALPHA)]
+                  + [[l, "CRX(x)"] for l in sorted(QS_ALPHA) if l != "CRX(x)"]]
         specs += [{"k": "qs", "w": w, "sel": s} for w in words(sorted(QS_ALPHA), 1, 1) for s in ("argnum", "names", "index")]
         specs += [{"k": "qs", "w": w, "nonlinear": nl} for w in [[], ["RX(x)"], ["RX(y)", "RY(2x)"]] for nl in NONLINEAR]
         ctx.enumerate(specs, fn="check_qs", axis="qnode_spectrum", chunk=2)
